@@ -79,8 +79,7 @@ func genProto(r *wvlib.Rng, kind string) proto.Message {
 		BlockSpan: protoInt(r), Data: protoBytes(r)}
 }
 
-// rawRecord writes a record field by field: declared and undeclared field numbers, every wire type except 3
-// (start-group, not modelled), right and wrong wire types for declared fields, repeated fields, non-minimal and
+// rawRecord writes a record field by field: declared and undeclared field numbers, every wire type incl. (nested) groups, right and wrong wire types for declared fields, repeated fields, non-minimal and
 // over-long uvarints, invalid field numbers; optionally cut at a random byte.
 func rawRecord(r *wvlib.Rng) ([]byte, string) {
 	var b []byte
@@ -107,6 +106,58 @@ func rawRecord(r *wvlib.Rng) ([]byte, string) {
 		case 3:
 			wt = uint64(r.Pick(4, 6, 7))
 			tag = "raw-bad-wiretype"
+		}
+		if r.Intn(9) == 0 {
+			// a (deprecated) group: unknown to every modelled message, skipped up to its end tag
+			tag = "raw-group"
+			var grp func(num uint64, depth int)
+			grp = func(num uint64, depth int) {
+				uv(num<<3 | 3)
+				for k := r.Intn(4); k > 0; k-- {
+					in := uint64(r.Pick(1, 2, 5, 16, 1<<29-1, 1<<29, 1<<31-1))
+					switch r.Intn(8) {
+					case 0:
+						if depth < 4 {
+							grp(in, depth+1)
+						}
+					case 1:
+						uv(in<<3 | 2)
+						p := protoBytes(r)
+						uv(uint64(len(p)))
+						b = append(b, p...)
+					case 2:
+						uv(in<<3 | 1)
+						b = append(b, r.Bytes(8)...)
+					case 3:
+						uv(in<<3 | 5)
+						b = append(b, r.Bytes(4)...)
+					case 4:
+						if r.Intn(4) == 0 {
+							in = uint64(r.Pick(0, 1<<31, 1<<40))
+							tag = "raw-group-bad-field"
+						}
+						uv(in<<3 | 0)
+						uv(uint64(protoInt(r)))
+					default:
+						uv(in<<3 | 0)
+						uv(uint64(protoInt(r)))
+					}
+				}
+				switch r.Intn(10) {
+				case 0:
+					uv((num+1)<<3 | 4) // end tag of another group
+					tag = "raw-group-wrong-end"
+				case 1:
+					tag = "raw-group-unterminated"
+				case 2:
+					uv(num<<3 | uint64(r.Pick(6, 7)))
+					tag = "raw-group-bad-wiretype"
+				default:
+					uv(num<<3 | 4)
+				}
+			}
+			grp(field, 0)
+			continue
 		}
 		uv(field<<3 | wt)
 		switch wt {
